@@ -57,6 +57,11 @@ META = {
   tie="Run: each extended event with generated contents inside generated contexts, followed by further events, through the three encoders of /repo both as extended call and as expansion: same decoded values, same stack depth, same success; adapters vs `expand`; unfolder targets unfolded both ways.",
   note="One recorded finding (UBJSON typed uint arrays needing 'H'). ",
   technique="Coq proof (adapter = expansion; state equality) + differential runs extended vs expanded"),
+ "C11": dict(
+  thm="Theorems (coq/Properties/C11.v): see the file.",
+  tie="Run: generated (type, value) pairs are folded and unfolded into a fresh variable of the same type by /repo, directly and through the JSON, UBJSON and CBOR encoder+parser; the result must be deep-equal (extracted deep_eq/omit_view of Gotype/UnfoldSpec.v: nil and empty slices/maps identified, dropped fields zero) to the original, a type the specification calls unsupported must be refused by an error, never a crash; the direct route must also equal the composition of the fold and unfold models.",
+  note="One recorded finding (uint64 above MaxInt64 through UBJSON). Self-referential types are exercised by a hand-written catalogue in a child process. ",
+  technique="Coq proof (fold model composed with unfold model) + extracted-model correspondence + deep-equality oracle"),
  "C12": dict(
   thm="Theorems (coq/Properties/C12.v): see the file.",
   tie="Run: generated (type, value) pairs - struct types with every combination of the tag options on fields of every kind, pointer depth 0..3, interfaces holding any supported dynamic type, named types - are folded by /repo into a recording visitor (with and without the extended interfaces); the events must equal those of the extracted fold model (Gotype/Fold.v) and their value must equal the documented mapping (Gotype/FoldSpec.v, written from the documentation).",
